@@ -13,7 +13,7 @@ NEEDS = {
  'C08': ('Compose._check_args compares shape[:2] only', 'image and mask that differ in depth only, is_check_shapes=True'),
  'C09': ('ShiftScaleRotate axes normalised through set()', 'list of >= 2 planes and comparison across processes with different PYTHONHASHSEED'),
  'C10': ('KeypointsProcessor.convert_from_dicaugment drops angle_in_degrees', 'KeypointParams(angle_in_degrees=False) with an angle-carrying format'),
- 'C11': ('rescale_slope_intercept works in place through np.asarray', 'RescaleSlopeIntercept on an int16 image whose dtype already equals the target; caller reuses its input'),
+ 'C11': ('add_noise_nps adds the noise in place instead of on a copy (re-seeded by hand after fix bc67c26 rewrote the original site, rescale_slope_intercept)', 'NPSNoise on an int16 image with a header; caller reuses its input array'),
  'C12': ('CoarseDropout._keypoint_in_hole rounds keypoint coordinates', 'keypoint with fractional coordinates within 0.5 voxel of a hole face'),
  'C13': ('BaseCompose.get_dict_with_id records "p"; replay restores it', 'ReplayCompose with nested OneOf/Compose with p<1 replayed on new data'),
  'C14': ('BboxParams._to_dict writes min_volume_visibility from min_area_visibility', 'serialised pipeline with bbox_params min_volume_visibility != min_area_visibility'),
